@@ -59,6 +59,20 @@ def run(ctx):
         oid = 'rnd%d' % k
         recs[oid] = rec
         obs.append(observe(rec, oid))
+    # every event id of the bundled code table x the four qualifiers as debug id, other fields random / structured
+    from pykdebugparser.trace_codes import default_trace_codes
+    import struct
+    ids = sorted(default_trace_codes())
+    for k, eid in enumerate(ids):
+        for q in range(4):
+            dbg = (eid & 0xfffffffc) | q
+            args = [rnd.getrandbits(64) for _ in range(4)]
+            rec = struct.pack('<Q4QQIIQ', rnd.getrandbits(64), *args, rnd.getrandbits(64), dbg, rnd.getrandbits(32),
+                              rnd.getrandbits(64))
+            oid = 'tab%d_%d' % (k, q)
+            recs[oid] = rec
+            obs.append(observe(rec, oid))
+    ctx.extra['table_debugids'] = 4 * len(ids)
     ctx.sample({'record_hex': bases[2].hex(), 'decoded': {k: v for k, v in obs[2 * 16384].items() if k != 'r'}})
     n, rej, results = validate_observations('KdRecord_Val', obs, ctx.workdir, timeout=1800)
     ctx.traces += n
